@@ -219,6 +219,14 @@ Queries(s) ==
   \cup { [a |-> "Query", q |-> "ListAllowedBidder", id |-> i] : i \in ids }
   \cup { [a |-> "Query", q |-> "GetAllowedBidder", id |-> i, u |-> u] : i \in ids, u \in Bidders }
   \cup { [a |-> "Query", q |-> "Params"] }
+  \cup { [a |-> "Query", q |-> "ListBid", id |-> i, bidder |-> "", matched |-> "", limit |-> lim, offset |-> off, total |-> tot] :
+            i \in {0, 1}, lim \in {0, 1, 2}, off \in {0, 1, 3}, tot \in BOOLEAN }
+  \cup { [a |-> "Query", q |-> "ListAuction", status |-> "", type |-> y, limit |-> lim, offset |-> off, total |-> tot] :
+            y \in {"", "B"}, lim \in {1, 2}, off \in {0, 1}, tot \in BOOLEAN }
+  \cup { [a |-> "Query", q |-> "ListVestingQueue", id |-> i, limit |-> lim, offset |-> off, total |-> tot] :
+            i \in {0, 1}, lim \in {1, 2}, off \in {0, 1}, tot \in BOOLEAN }
+  \cup { [a |-> "Query", q |-> "ListAllowedBidder", id |-> i, limit |-> lim, offset |-> 0, total |-> tot] :
+            i \in {0, 1}, lim \in {1, 2}, tot \in BOOLEAN }
 
 MCInputs0(kind, s, g) ==
   CASE kind = "CreateFixed" -> {m \in Creates(s) : m.a = "CreateFixed"}
